@@ -31,6 +31,8 @@ if [ "$code" = "0" ] && [ "$TIER" = "thorough" ]; then
   case "$PROP" in
     C11) python3 tools/fuzz_tier.py C11 c11_decode 400000 8 512; code=$? ;;
     C03) python3 tools/fuzz_tier.py C03 c03_agreement 250000 8 120; code=$? ;;
+    C05) python3 tools/fuzz_tier.py C05 c05_parse 100000 8 300; code=$? ;;
+    C15) python3 tools/fuzz_tier.py C15 c15_spans 100000 8 200; code=$? ;;
   esac
 fi
 if [ -f "target/hang_${PROP}.txt" ]; then cat "target/hang_${PROP}.txt" >&2; fi
